@@ -126,7 +126,177 @@ theorem testRange_ok_iff (opt : Bool) (lo : Bound) (op1 : Op) (v : PyVal) (op3 o
   · simp
     grind
   · rename_i h1 h2
-    simp
-    done
+    simp only [reduceCtorEq, false_iff, not_or, not_and, not_exists]
+    exact ⟨fun h => absurd h h1, fun a b h => absurd h (h2 a b)⟩
+
+/-! ### specialisations to the operator/bound shapes that occur in the check table
+
+The right-hand sides are the unfolded forms of the domain predicates of `MM.Props.C17`
+(`numGe`, `numGt`, `numLt`, `integral`, `finite`, `optionalOr`, `isPair`). -/
+
+theorem vs_ge_int (v : PyVal) (z : Int) (q : Rat) (hq : (z : Rat) = q) :
+    testVsThreshold false v .ge (.int z) = .ok () ↔
+      (v.isNum = true ∧ PyFloat.le (.fin q) v.num = true) ∧ ∃ z' : Int, v.num = .fin (z' : Rat) := by
+  subst hq
+  simp [testVsThreshold_ok_iff, Op.test, Bound.num, Bound.isInt, notIntegral_false_iff, and_assoc]
+
+theorem vs_ge_int_opt (v : PyVal) (z : Int) (q : Rat) (hq : (z : Rat) = q) :
+    testVsThreshold true v .ge (.int z) = .ok () ↔
+      v = .none ∨
+      ((v.isNum = true ∧ PyFloat.le (.fin q) v.num = true) ∧ ∃ z' : Int, v.num = .fin (z' : Rat)) := by
+  subst hq
+  simp [testVsThreshold_ok_iff, Op.test, Bound.num, Bound.isInt, notIntegral_false_iff, and_assoc]
+
+theorem vs_ge_float (v : PyVal) (q q' : Rat) (hq : q = q') :
+    testVsThreshold false v .ge (.float (.fin q)) = .ok () ↔
+      v.isNum = true ∧ PyFloat.le (.fin q') v.num = true := by
+  subst hq
+  simp [testVsThreshold_ok_iff, Op.test, Bound.num, Bound.isInt]
+
+theorem vs_gt_float_opt (v : PyVal) (q q' : Rat) (hq : q = q') :
+    testVsThreshold true v .gt (.float (.fin q)) = .ok () ↔
+      v = .none ∨ (v.isNum = true ∧ PyFloat.lt (.fin q') v.num = true) := by
+  subst hq
+  simp [testVsThreshold_ok_iff, Op.test, Bound.num, Bound.isInt]
+
+theorem wb_le_lt (v : PyVal) (a a' b b' : Rat) (ha : a = a') (hb : b = b') :
+    testWithinBounds false (.float (.fin a)) .le v .lt (.float (.fin b)) = .ok () ↔
+      (v.isNum = true ∧ PyFloat.le (.fin a') v.num = true) ∧
+      (v.isNum = true ∧ PyFloat.lt v.num (.fin b') = true) := by
+  subst ha hb
+  simp [testWithinBounds_ok_iff, Op.test, Bound.num, Bound.isInt]
+  grind
+
+theorem wb_lt_lt (v : PyVal) (a a' b b' : Rat) (ha : a = a') (hb : b = b') :
+    testWithinBounds false (.float (.fin a)) .lt v .lt (.float (.fin b)) = .ok () ↔
+      (v.isNum = true ∧ PyFloat.lt (.fin a') v.num = true) ∧
+      (v.isNum = true ∧ PyFloat.lt v.num (.fin b') = true) := by
+  subst ha hb
+  simp [testWithinBounds_ok_iff, Op.test, Bound.num, Bound.isInt]
+  grind
+
+theorem lt_pinf_iff_of_lt (x y : PyFloat) (h : PyFloat.lt x y = true) :
+    PyFloat.lt y .pinf = true ↔ ∃ q, y = .fin q := by
+  cases x <;> cases y <;> simp_all [PyFloat.lt]
+
+theorem range_lt_lt_lt_opt (v : PyVal) (a a' b b' : Rat) (ha : a = a') (hb : b = b') :
+    testRange true (.float (.fin a)) .lt v .lt .lt (.float (.fin b)) = .ok () ↔
+      v = .none ∨ ∃ x y, v = .tuple [x, y] ∧ x.isNum = true ∧ y.isNum = true ∧
+        (x.isNum = true ∧ PyFloat.lt (.fin a') x.num = true) ∧ PyFloat.lt x.num y.num = true ∧
+        (y.isNum = true ∧ PyFloat.lt y.num (.fin b') = true) := by
+  subst ha hb
+  simp [testRange_ok_iff, Op.test, Bound.num, Bound.isInt]
+  grind
+
+theorem range_le_lt_inf_opt (v : PyVal) (a a' : Rat) (ha : a = a') :
+    testRange true (.float (.fin a)) .le v .lt .lt (.float .pinf) = .ok () ↔
+      v = .none ∨ ∃ x y, v = .tuple [x, y] ∧ x.isNum = true ∧ y.isNum = true ∧
+        (x.isNum = true ∧ PyFloat.le (.fin a') x.num = true) ∧ PyFloat.lt x.num y.num = true ∧
+        ∃ q, y.num = .fin q := by
+  subst ha
+  simp only [testRange_ok_iff, Op.test, Bound.num, Bound.isInt]
+  refine or_congr (by simp) (exists_congr fun x => exists_congr fun y => ?_)
+  constructor
+  · rintro ⟨h1, h2, h3, h4, h5, h6, -⟩
+    exact ⟨h1, h2, h3, ⟨h2, h4⟩, h6, (lt_pinf_iff_of_lt _ _ h6).1 h5⟩
+  · rintro ⟨h1, h2, h3, ⟨-, h4⟩, h6, h5⟩
+    exact ⟨h1, h2, h3, h4, (lt_pinf_iff_of_lt _ _ h6).2 h5, h6, by simp⟩
+
+theorem range_int_le_le_inf_opt (v : PyVal) (z : Int) (q : Rat) (hq : (z : Rat) = q) :
+    testRange true (.int z) .le v .le .lt (.float .pinf) = .ok () ↔
+      v = .none ∨ ∃ x y, v = .tuple [x, y] ∧ x.isNum = true ∧ y.isNum = true ∧
+        (x.isNum = true ∧ PyFloat.le (.fin q) x.num = true) ∧ PyFloat.le x.num y.num = true ∧
+        (∃ z' : Int, x.num = .fin (z' : Rat)) ∧ ∃ z' : Int, y.num = .fin (z' : Rat) := by
+  subst hq
+  simp only [testRange_ok_iff, Op.test, Bound.num, Bound.isInt, notIntegral_false_iff]
+  refine or_congr (by simp) (exists_congr fun x => exists_congr fun y => ?_)
+  constructor
+  · rintro ⟨h1, h2, h3, h4, h5, h6, h7⟩
+    exact ⟨h1, h2, h3, ⟨h2, h4⟩, h6, h7 trivial⟩
+  · rintro ⟨h1, h2, h3, ⟨-, h4⟩, h6, h7, ⟨z', h8⟩⟩
+    exact ⟨h1, h2, h3, h4, by rw [h8]; rfl, h6, fun _ => ⟨h7, ⟨z', h8⟩⟩⟩
+
+/-! ### `postInit` -/
+
+theorem runCheck_total (o : Obj) (c : Check Field) :
+    runCheck o c = .ok () ∨ runCheck o c = .error .valueError := by
+  cases c with
+  | vsThreshold a op b => exact testVsThreshold_total _ _ _ _
+  | withinBounds lo op1 a op2 hi => exact testWithinBounds_total _ _ _ _ _ _
+  | range lo op1 a op3 op2 hi => exact testRange_total _ _ _ _ _ _ _
+
+theorem postInit_total (o : Obj) : postInit o = .ok () ∨ postInit o = .error .valueError :=
+  forM_total _ _ (fun c _ => runCheck_total o c)
+
+theorem postInit_ok_iff (o : Obj) : postInit o = .ok () ↔ ∀ c ∈ checks, runCheck o c = .ok () :=
+  forM_ok_iff _ _
+
+/-! ### construction -/
+
+theorem fill_ok (args : Field → Option PyVal) (h1 : (args .n_test).isSome) (h2 : (args .iroas).isSome) :
+    fill args = .ok fun f => match args f with
+      | some v => v
+      | none => (Field.default f).getD .none := by
+  have e1 : (args .n_test).isNone = false := by
+    cases hn : args .n_test <;> simp_all
+  have e2 : (args .iroas).isNone = false := by
+    cases hn : args .iroas <;> simp_all
+  have hc : ¬ (Field.all.any fun f => (args f).isNone && (Field.default f).isNone) = true := by
+    simp [Field.all, Field.default, e1, e2]
+  unfold fill
+  rw [if_neg hc]
+  rfl
+
+theorem construct_eq (args : Field → Option PyVal) (o : Obj) (h : fill args = .ok o) :
+    construct args = (postInit o).map fun _ => o := by
+  unfold construct
+  rw [h]
+  cases hp : postInit o <;> simp [bind, Except.bind, Except.map, pure, Except.pure, hp]
+
+/-! ### equality -/
+
+theorem beq_comm (a b : PyFloat) : PyFloat.beq a b = PyFloat.beq b a := by
+  cases a <;> cases b <;> simp [PyFloat.beq, Bool.beq_comm]
+
+theorem beq_self (a : PyFloat) (h : a ≠ .nan) : PyFloat.beq a a = true := by
+  cases a <;> simp_all [PyFloat.beq]
+
+theorem ne_nan_of_lt_left {a b : PyFloat} (h : PyFloat.lt a b = true) : a ≠ .nan := by
+  cases a <;> cases b <;> simp_all [PyFloat.lt]
+theorem ne_nan_of_lt_right {a b : PyFloat} (h : PyFloat.lt a b = true) : b ≠ .nan := by
+  cases a <;> cases b <;> simp_all [PyFloat.lt]
+theorem ne_nan_of_le_left {a b : PyFloat} (h : PyFloat.le a b = true) : a ≠ .nan := by
+  cases a <;> cases b <;> simp_all [PyFloat.le]
+theorem ne_nan_of_le_right {a b : PyFloat} (h : PyFloat.le a b = true) : b ≠ .nan := by
+  cases a <;> cases b <;> simp_all [PyFloat.le]
+
+theorem pyEq_comm (x y : PyVal) : pyEq x y = pyEq y x := by
+  unfold pyEq
+  split
+  · rfl
+  · simp only [beq_comm]
+    grind
+  · rename_i h1 h2
+    split
+    · exact (h1 rfl rfl).elim
+    · exact (h2 _ _ _ _ rfl rfl).elim
+    · rw [beq_comm, Bool.and_comm y.isNum]
+
+theorem pyEq_self_none : pyEq .none .none = true := by simp [pyEq]
+
+theorem pyEq_self_num (v : PyVal) (h : v.isNum = true) (hn : v.num ≠ .nan) : pyEq v v = true := by
+  cases v <;> simp_all [pyEq, PyVal.isNum, beq_self]
+
+theorem pyEq_self_pair (a b : PyVal) (ha : a.isNum = true) (hb : b.isNum = true)
+    (na : a.num ≠ .nan) (nb : b.num ≠ .nan) : pyEq (.tuple [a, b]) (.tuple [a, b]) = true := by
+  simp [pyEq, ha, hb, beq_self _ na, beq_self _ nb]
+
+theorem objEq_iff (a b : Obj) : objEq a b = true ↔ ∀ f, pyEq (a f) (b f) = true := by
+  simp only [objEq, Field.all, List.all_cons, List.all_nil, Bool.and_true, Bool.and_eq_true]
+  constructor
+  · intro h f
+    cases f <;> simp [h]
+  · intro h
+    simp [h]
 
 end MM.Params
